@@ -46,6 +46,7 @@ func NewGA(prog *Program, tab *Table) *GA {
 		types: map[*peg.Node]map[string]bool{}, rtypes: map[string]map[string]bool{},
 		consts: map[*peg.Node]map[string]bool{}, rconst: map[string]map[string]bool{},
 		parent: map[*peg.Node]*peg.Node{}, ruleOf: map[*peg.Node]*peg.Rule{}, onOf: map[*peg.Node]*ast.FuncDecl{}}
+	inl := newASTInliner(prog.Grammar)
 	for _, r := range tab.G.Rules {
 		g.rules[r.Name] = r // last duplicate wins, as in pigeon's buildRulesTable
 		g.order = append(g.order, r)
@@ -54,7 +55,7 @@ func NewGA(prog *Program, tab *Table) *GA {
 			g.parent[n] = p
 			g.ruleOf[n] = r
 			if n.Run != "" {
-				g.onOf[n] = tab.On[strings.TrimPrefix(n.Run, "call")]
+				g.onOf[n] = inl.Expand(tab.On[strings.TrimPrefix(n.Run, "call")]) // helper calls expanded in place (astinline.go)
 			}
 			for _, k := range n.Kids {
 				walk(k, n)
